@@ -2480,10 +2480,16 @@ bool unitsAreEquivalent(const ModelPtr &model,
                         std::string &hints,
                         double &multiplier)
 {
+    // Note: the base units of the two variables are counted separately and
+    //       then compared, rather than added to and subtracted from the same
+    //       count, which may not give exactly zero for fractional exponents.
+
     std::map<std::string, double> unitMap = {};
+    std::map<std::string, double> otherUnitMap = {};
 
     for (const auto &baseUnits : baseUnitsList) {
         unitMap.emplace(baseUnits, 0.0);
+        otherUnitMap.emplace(baseUnits, 0.0);
     }
 
     hints = "";
@@ -2504,11 +2510,15 @@ bool unitsAreEquivalent(const ModelPtr &model,
     if (model->hasUnits(v2UnitsName)) {
         UnitsPtr u2 = Units::create();
         u2 = model->units(v2UnitsName);
-        updateBaseUnitCount(model, unitMap, multiplier, u2->name(), 1, 0, -1);
-    } else if (unitMap.find(v2UnitsName) != unitMap.end()) {
-        unitMap.at(v2UnitsName) -= 1.0;
+        updateBaseUnitCount(model, otherUnitMap, multiplier, u2->name(), 1, 0, -1);
+    } else if (otherUnitMap.find(v2UnitsName) != otherUnitMap.end()) {
+        otherUnitMap.at(v2UnitsName) -= 1.0;
     } else if (isStandardUnitName(v2UnitsName)) {
-        updateBaseUnitCount(model, unitMap, multiplier, v2UnitsName, 1, 0, -1);
+        updateBaseUnitCount(model, otherUnitMap, multiplier, v2UnitsName, 1, 0, -1);
+    }
+
+    for (const auto &otherBasePair : otherUnitMap) {
+        unitMap.emplace(otherBasePair.first, 0.0);
     }
 
     // Remove "dimensionless" from base unit testing.
@@ -2517,8 +2527,11 @@ bool unitsAreEquivalent(const ModelPtr &model,
 
     bool status = true;
     for (const auto &basePair : unitMap) {
-        if (basePair.second != 0.0) {
-            std::string num = std::to_string(basePair.second);
+        auto otherBasePair = otherUnitMap.find(basePair.first);
+        auto otherCount = (otherBasePair == otherUnitMap.end()) ? 0.0 : otherBasePair->second;
+
+        if (!areEqual(basePair.second, -otherCount)) {
+            std::string num = std::to_string(basePair.second + otherCount);
             num.erase(num.find_last_not_of('0') + 1, num.length());
             num = std::regex_replace(num, fullStopAtEndRegex, "");
             hints += basePair.first + "^" + num + ", ";
